@@ -218,6 +218,17 @@ func runC17(a vh.Args, o *vh.Oracle, r *vh.Result) error {
 			}
 			return nil
 		}
+		var tc c17TraceCase
+		if err := readJSON(a.Replay, &tc); err == nil && tc.Kind == "pooltrace" {
+			for i := 0; i < 30; i++ {
+				cc := tc
+				cc.Sched = tc.Sched + uint64(i)*7919
+				if err := c17TraceOne(a, o, r, &cc); err != nil {
+					return err
+				}
+			}
+			return nil
+		}
 		var c c17Case
 		if err := readJSON(a.Replay, &c); err != nil {
 			return err
@@ -402,6 +413,16 @@ func runC17(a vh.Args, o *vh.Oracle, r *vh.Result) error {
 				return err
 			}
 		}
+	}
+	ntr := 150
+	if a.Tier == "thorough" {
+		ntr = 3000
+	}
+	if race {
+		ntr = 40
+	}
+	if err := c17Trace(a, o, r, rng, ntr); err != nil {
+		return err
 	}
 	if race {
 		return nil
